@@ -23,7 +23,7 @@ func init() {
 	for c := rune(0); c < 0x20; c++ {
 		alphabet = append(alphabet, c)
 	}
-	alphabet = append(alphabet, '"', '\\', '/', 0x7f, 0x80, 0x7ff, 0x800, 0xd7ff, 0xe000, 0xffff, 0x10000, 0x10ffff, 'a', 'A', '<', '>', '&', 0x2028)
+	alphabet = append(alphabet, '"', '\\', '/', 0x7f, 0x80, 0x7ff, 0x800, 0xd7ff, 0xe000, 0xfffc, 0xfffd, 0xffff, 0x10000, 0x10ffff, 'a', 'A', '<', '>', '&', 0x2028)
 }
 
 // spellings of one code point inside a JSON string literal.
